@@ -172,6 +172,10 @@ let parse_oracle (s : string) : (string * int * int * string) list =
       | _ -> failwith "oracle-entry") (String.split_on_char ',' body)
 
 let run_case = function
+  (* "big comp <class> <A> <B>": objects of 2^31-1 bytes and more over sparse mappings.  The value-tree model is NOT
+     evaluated there (the theorems quantify over every length); the harness compares the implementation's answers
+     with the lexicographic order computed from the lengths (harness/bigmap.h) and prints this: *)
+  | "big" :: _ -> "BIG:ok"
   | _kind :: oracle :: rest ->
     let table = parse_oracle oracle in
     cur_table := table;
